@@ -70,8 +70,15 @@ def listMem (glob : String → String → Bool) (shuf : List String → List Str
 def fileName (id : String) : String :=
   String.ofList (id.toList.map (fun ch => if ch = '/' then '_' else ch)) ++ ".json"
 
-/-- `file_name.split('.')[0]` -/
-def stem (name : String) : String := String.ofList (name.toList.takeWhile (· != '.'))
+/-- everything before the last `.` of `cs` (`cs` holds a `.`) -/
+def dropExt (cs : List Char) : List Char := ((cs.reverse.dropWhile (· != '.')).drop 1).reverse
+
+/-- `os.path.splitext(file_name)[0]` (after F14; a listed name holds no path separator): the name up to its last `.`,
+provided some character other than `.` precedes that dot - leading dots never start an extension - else the whole name -/
+def stem (name : String) : String :=
+  let lead := name.toList.takeWhile (· == '.')
+  let rest := name.toList.dropWhile (· == '.')
+  if rest.contains '.' then String.ofList (lead ++ dropExt rest) else name
 
 /-- `get_recording(recording_id)`: the file at the path of that id, or `NoSuchRecording` -/
 def readFile (dir : List (String × Rec)) (id : String) : Except LErr Rec :=
